@@ -163,6 +163,11 @@ def derivations(svg):
         "str+x": lambda x: ("M-9,-9 L-8,-8" + x) if isinstance(x, (svg.Path, svg.PathSegment, svg.Subpath)) else NotImplemented,
         "seg+x": lambda x: (svg.Line(svg.Point(-9, -9), svg.Point(-8, -8)) + x) if isinstance(x, (svg.Path, svg.Subpath)) else NotImplemented,
         "~x": lambda x: ~x if isinstance(x, svg.Matrix) else NotImplemented,
+        # the matrix as the RIGHT operand of an untransformed element: the product owns its transform, whatever is done to
+        # the product afterwards leaves the caller's matrix alone
+        "rect*x": lambda x: (svg.Rect(1, 2, 3, 4, fill="red") * x) if isinstance(x, svg.Matrix) else NotImplemented,
+        "path*x": lambda x: (svg.Path("M1,1 L3,-2 Q7,5 -4,1.5") * x) if isinstance(x, svg.Matrix) else NotImplemented,
+        "circle*=x": lambda x: svg.Circle(4, -3, 2.5).__imul__(x) if isinstance(x, svg.Matrix) else NotImplemented,
         "x@M": lambda x: (x @ Mx()) if isinstance(x, (svg.Matrix, svg.Shape)) else NotImplemented,
         # neutral elements of the arithmetic (the inputs that invite "nothing to do, return the operand")
         "zero+x": lambda x: (svg.Length(0) + x) if isinstance(x, svg.Length) else NotImplemented,
